@@ -3,9 +3,9 @@
     Jsonx/LexProofs.v, ParseProofs.v, Term.v, TermLegacy.v or ConstsGen.v.
     [pf] is strconv.ParseFloat on a float token and [ff] json.Marshal of a
     float64: arbitrary functions, so the theorems hold whatever they return. *)
-From Coq Require Import List NArith ZArith Bool String.
+From Coq Require Import List NArith ZArith Bool String Sorted.
 From Verif Require Import Lib.Utf8 Jsonx.Lex Jsonx.Tok Jsonx.GoStr Jsonx.Parse Jsonx.Json
-  Jsonx.Encode Jsonx.LexProofs Jsonx.ParseProofs Jsonx.Term Jsonx.Balance Jsonx.Seen Jsonx.TermLegacy
+  Jsonx.Encode Jsonx.LexProofs Jsonx.ParseProofs Jsonx.Term Jsonx.Balance Jsonx.Seen Jsonx.Pos Jsonx.TermLegacy
   Jsonx.GenTypes Gen.JsonxConsts Jsonx.ConstsGen.
 Import ListNotations.
 Local Open Scope N_scope.
@@ -28,6 +28,27 @@ Theorem C08_tokens_spell_input : forall input toks,
   jsonx_raw_tokens input = Ok toks -> spelled is_white toks input.
 Proof. exact (fun input => lex_all_spelled lex_jsonx is_white lex_jsonx_takes _ input). Qed.
 Print Assumptions C08_tokens_spell_input.
+
+(** Positions.  The (line, column) a token carries - and with it every
+    lexing error found in that token - is the position of its first rune in
+    the input text: line 1 + the number of line feeds before it, column in
+    runes from 1 after the last line feed ([adv_all start_pos pre] for the
+    text [pre] before the token); positions grow strictly from token to
+    token. *)
+Theorem C08_token_positions : forall input toks,
+  jsonx_raw_tokens input = Ok toks ->
+  let ps := tok_positions is_white start_pos toks input in
+  Forall2 (fun te p => exists pre rest, input = pre ++ tlit (fst te) ++ rest /\ p = adv_all start_pos pre)
+          toks ps /\ Sorted pos_lt ps.
+Proof. exact jsonx_token_positions. Qed.
+Print Assumptions C08_token_positions.
+
+Example C08_positions_example :
+  match jsonx_raw_tokens [123; 10; 32; 97; 58; 233; 32; 49; 10; 125] with
+  | Ok raw => tok_positions is_white start_pos raw [123; 10; 32; 97; 58; 233; 32; 49; 10; 125]
+  | _ => []
+  end = [(1, 1); (1, 2); (2, 2); (2, 3); (2, 4); (2, 6); (2, 7); (3, 1)]%N.
+Proof. vm_compute. reflexivity. Qed.
 
 (** The parser: fuel [2 * tokens + 8] is never exhausted, whatever the token
     stream (parseValue, and parseSeries with its SkipErrStmt recovery). *)
